@@ -22,6 +22,7 @@ RULE = (
     ' restore_then_solve: a run of saved load steps up to a peak and back, Set_Iter(j), one more step - against a new simulation replayed up to iteration j (non-trivial = j is not the last iteration and the response is non-zero).'
     ' Round 8: operation copy_mesh (the mesh replaced by a copy of itself made with warm caches) and phasefield_replace (damaged saved history, mesh replaced by one of the same or another size, light load vs a new simulation).'
     ' Round 9: beam histories may give a member another section; elastic / thermal histories may save the simulation to disk (save_simu) so that older meshes are read back from their files.'
+    ' hyperelastic_changes (round 9) enumerates element type x kind of change for the scenario dynamic step / one change / dynamic step.'
 )
 ASSUMPTIONS = [
     "reference = a new simulation built from the declarative model (new law object, new Mesh object rebuilt from arrays, "
@@ -632,6 +633,24 @@ def run_hyper_history(case, rec):
 
 
 SUBS.append(Sub("hyperelastic_history", run_hyper_history, gen=hyper_histories, quick=60, thorough=400, shards=6))
+
+
+def enum_hyper_changes(tier):
+    """(added by the lead, round 9) the scenario 'dynamic step, ONE change, dynamic step' for every kind of change and two element
+    types, enumerated: the generated histories line it up with a given change only at some seeds (seeded change C14_C, re-run
+    at the end of round 9)"""
+    sq = [[0.0, 0.0], [1.0, 0.0], [1.0, 1.0], [0.0, 1.0]]
+    changes = [dict(op="param", value=7.5), dict(op="rho", value=2.5), dict(op="thickness", value=0.5), dict(op="thickness", value=3.0),
+               dict(op="translate", t=[1.5, -0.5, 0.0]), dict(op="rotate", theta=53.0, center=[0.0, 0.0, 0.0]),
+               dict(op="set_coord", A=[[1.5, 0.0], [0.25, 1.0]], b=[0.0, 0.0])]
+    for et in ("TRI3", "QUAD4"):
+        r = dict(verts=sq, h=0.5, elemType=et, organised=True, extrude=None, layers=0, A=None, b=None, perm=None, orphans=0)
+        for ch in changes:
+            yield dict(kind="hyperelastic", recipe=r, ops=[dict(op="solve"), ch, dict(op="solve"), dict(op="matrices")], bc0=3, K=6.0, dt=0.2)
+
+
+SUBS.append(Sub("hyperelastic_changes", run_hyper_history, enum=enum_hyper_changes,
+                doc="element type x kind of change: dynamic step, one change, dynamic step vs a new simulation"))
 
 
 # ------------------------------------------------------------------------------------------
